@@ -54,7 +54,7 @@ func HarnessRevalidation() {
 		case 4:
 			h304["Content-Encoding"] = []string{"gzip"}
 		}
-		e.o.script = []originResp{{status: 200, header: h1, body: []byte("v1")}, {status: 304, header: h304}}
+		e.o.script = []originResp{{status: 200, header: h1, body: []byte("v1")}, {status: 304, header: h304}, {status: 304, header: hdr()}}
 	case 1:
 		e.o.script = []originResp{{status: 200, header: h1, body: []byte("v1")}, {status: 200, header: h2, body: []byte("v2!")}}
 	default:
@@ -148,6 +148,30 @@ func HarnessRevalidation() {
 		vAssert(len(c2.header["Content-Encoding"]) == 0 && one(c2.header, "Content-Type") != "text/x-304", "c06.304-changes-the-stored-bodys-headers")
 		vAssert(one(c2.header, "X-Cache") == "REVALIDATED", "c06.304-not-labelled-revalidated")
 		vAssert(err2 == nil && m2.Expires.Equal(t1.Add(dflt)), "c06.revalidation-does-not-renew-by-default")
+		// the renewed lifetime elapses as well: the entry is revalidated a second time, still with
+		// the validators saved from the stored response (a 304 names no new representation; it
+		// may omit the entity tag, and what it omits must not be forgotten)
+		if err2 == nil && vParam("secondreval", 0) == 1 {
+			seenBefore := len(e.o.seen)
+			t2 := time.Now()
+			vAssume(t2.After(m2.Expires))
+			c3 := e.plain(newReq("GET", "o.test", "/v", "", nil))
+			vAssert(len(e.o.seen) > seenBefore, "c03.stale-entry-served-without-origin-contact")
+			if len(e.o.seen) > seenBefore {
+				vReach("second-revalidation")
+				up2 := e.o.seen[seenBefore].header
+				if etag != "" {
+					vAssert(one(up2, "If-None-Match") == etag, "c06.second-revalidation.stored-etag-not-sent")
+				} else {
+					vAssert(len(up2["If-None-Match"]) == 0, "c06.second-revalidation.etag-invented")
+				}
+				if hasLM {
+					got2, perr2 := http.ParseTime(one(up2, "If-Modified-Since"))
+					vAssert(perr2 == nil && got2.Equal(lm), "c06.second-revalidation.stored-last-modified-not-sent")
+				}
+				vAssert(c3.status == 200 && string(c3.body) == "v1", "c06.304-does-not-serve-stored-body")
+			}
+		}
 	case 1:
 		vReach("200-replaces")
 		vAssert(c2.status == 200 && string(c2.body) == "v2!", "c06.200-does-not-serve-new-body")
